@@ -2,6 +2,7 @@ import json, os, sys
 import vlib, apidrive
 
 ASSUME = [
+    'single-node tier: every sequence starts on a network that has been running for a while: after the setup (configuration, three sessions, joins) a snapshot that folds everything is taken and the node is restarted, so that configuration and sessions live in the snapshot state and not in the log',
     'single-node tier: the forced snapshots are taken "20 minutes later" (compaction time = now + 20 min, flag -canary_compaction_start): with the configured session expiration of 30 minutes nothing is old enough to be folded, so every acknowledged message must still be served afterwards; a node whose compaction horizon fell back to the default would drop them',
     'tier 2 (this check): a real single-node network (real hashicorp/raft with in-memory transport, real FSM, real LevelDB raftlog/irclog, FileSnapshotStore, real HTTP handlers) runs in a child process; SIGKILL is delivered between operations and, for the post-then-kill operation, while a POST is in flight',
     'a POST that was not answered before the kill is unacknowledged: it may be part of the history or not, but never twice; the bridge retries with the same client message id',
